@@ -29,4 +29,4 @@ Extraction "nv.ml" config_of preset_default preset_match_paths preset_set_match_
   update_allowed last_fold_norm_ok pattern_matches
   layout_offsets view_lengths
   init_state count do_event step_thread lookup location_of
-  Nucleo.init_nstate Nucleo.do_event Nucleo.enabled_tick Nucleo.active_injectors Nucleo.count_of Nucleo.published.
+  Nucleo.init_nstate Nucleo.do_event Nucleo.enabled_tick Nucleo.enabled_config Nucleo.active_injectors Nucleo.count_of Nucleo.published.
